@@ -45,4 +45,28 @@ PROPS = {
             "in-process runs cannot pin address-space layout (foldhash inside string-interner mixes it in, lookup-only today); the unpinned process runs are the catch-all",
         ],
     },
+    "C15": {
+        "level": "exploration",
+        "runs": {"quick": 4000, "thorough": 400000},
+        "selftest_runs": 1500,
+        "needs_real": False,
+        "rule": (
+            "each run draws a workspace of 1-4 generated modules on a tmpfs scratch folder and a history of <=60 client events: a chain of 1-6 target states "
+            "(re-laid-out program, error-injected program at one of 7 phases, another program, back to base) realised as didOpen / incremental didChange "
+            "(single diff, chunked delete+insert, typing, full replace; 1-4 changes per notification; positions sometimes beyond end of line / file; "
+            "multi-byte trivia; LF or CRLF per file) / save / didClose, with idle-timer firings (per-run probability 0, 0.1 or 0.5 after each message), "
+            "definition / references / prepareRename / rename requests, closed rename loops, opens and closes of unrelated files and folder remove/add interleaved "
+            "from the schedule stream, under a per-run std hash seed. The real main_loop runs single-threaded; at every request, rename loop and checkpoint "
+            "a fresh server is handed the client's current texts and its published diagnostics and answers must equal the history server's; the server's "
+            "document copies are compared with the client's buffers after every notification; the server must stay alive. evaluations = history executions + fresh-server executions. "
+            "non-trivial = history with >=1 didChange that was not discarded; distinct = distinct digests of the full message transcript."
+        ),
+        "real": ["main_loop, refresh, notify (oal-lsp.rs, included source)", "RequestDispatcher/NotificationDispatcher", "all four handlers", "Workspace, Folder, Config (real oal.toml)", "DefaultFileSystem on tmpfs", "unicode conversions", "whole compiler pipeline"],
+        "stub": ["lsp-server stdio threads and framing (Connection::memory())", "initialize handshake", "the 1000 ms timer (decided by the simulator at select!)", "the editor (client model)", "std hash seed (interposed getrandom)"],
+        "assumptions": COMMON_ASSUME + [
+            "client is protocol-legal and well-formed: no malformed JSON, no lone CR, no request for a document that neither is open nor exists",
+            "main_loop keeps no state across iterations outside GlobalState (the simulator pauses it by unwinding at select! and re-enters it)",
+            "a history whose final texts crash the refresh of a *fresh* server too is discarded and counted (skipped_pipeline_crash): that is C01/C04 territory",
+        ],
+    },
 }
